@@ -62,10 +62,16 @@ Definition no_trap_violation (b : pbs) : bool :=
 
 (* ------------------------------------------------------------------------------------------
    per-state monitors.  `reach` = the state was produced from a start state through offered
-   actions only (false for states assembled with the public constructors). *)
-Definition mon_block (dbg reach : bool) (b : blk) : list (N * N) :=
+   actions only (false for states assembled with the public constructors).  `inv` = reach, or the state was assembled
+   (or produced by offered actions from a state assembled) with a well-formed legal board, step <= 3 earlier boards,
+   a status naming an empty square next to a fitting piece, and from-scratch hash: the play invariant of the proofs
+   holds there, only the repetition history / turn-start hash / earlier boards are synthetic.  `nopanic` = reach, or
+   the state was parsed from a diagram in which a piece stands unsupported on a trap (accepted by the parser; the
+   no-panic theorem C19 covers every parsed start, the capture theorems assume a position without trap violations).  Clauses that are
+   theorems under the play invariant alone are evaluated under `inv`; clauses about histories need `reach`. *)
+Definition mon_block (dbg reach inv nopanic : bool) (b : blk) : list (N * N) :=
   match get tagS b with
-  | None => if reach then [(19, tagS)] else []            (* the state could not even be read: a panic *)
+  | None => if nopanic then [(19, tagS)] else []          (* the state could not even be read: a panic *)
   | Some sl =>
   match dec_state sl with
   | None => [(0, 1)]
@@ -74,8 +80,8 @@ Definition mon_block (dbg reach : bool) (b : blk) : list (N * N) :=
     let gm t := match get t m with Some v => v | None => [] end in
     let c := cell (board s) in
     let xs := get_all tagX b in
-    fails 19 1 (negb reach || match xs with [] => true | _ => false end) ++
-    fails 10 1 (negb reach || wfb_exec (board s)) ++
+    fails 19 1 (negb nopanic || match xs with [] => true | _ => false end) ++
+    fails 10 1 (negb inv || wfb_exec (board s)) ++
     match ph s with
     | PlacePhase =>
       (match get tagN b, get tagV b with
@@ -92,17 +98,17 @@ Definition mon_block (dbg reach : bool) (b : blk) : list (N * N) :=
     | PlayPhase pp =>
       let stp := step_of pp in
       let st := sstatus_of (pstate pp) in
-      fails 3 1 (negb reach || (stp <=? 3)) ++
-      fails 12 2 (negb reach || negb (stp =? 0) || pps_eqb (pstate pp) PPNone) ++
+      fails 3 1 (negb inv || (stp <=? 3)) ++
+      fails 12 2 (negb inv || negb (stp =? 0) || pps_eqb (pstate pp) PPNone) ++
       (match get tagN b with
        | Some n =>
          let moves := filter (fun x => negb (x =? 0)) n in
          fails 1 1 (set_eqN n (gm tagN)) ++
          fails 1 2 (nodupN n) ++
-         fails 1 3 (negb reach || Bool.eqb (memN 0 n) (spec_pass_ok stp st)) ++
-         fails 1 4 (negb reach || set_eqN moves (spec_offered_moves c (side s) stp st)) ++
+         fails 1 3 (negb inv || Bool.eqb (memN 0 n) (spec_pass_ok stp st)) ++
+         fails 1 4 (negb inv || set_eqN moves (spec_offered_moves c (side s) stp st)) ++
          fails 12 3 (negb reach || negb (is_mcp (pstate pp)) || match n with [] => false | _ => true end) ++
-         fails 12 4 (negb reach || negb (is_mcp (pstate pp)) || set_eqN n (spec_offered_moves c (side s) stp st)) ++
+         fails 12 4 (negb inv || negb (is_mcp (pstate pp)) || set_eqN n (spec_offered_moves c (side s) stp st)) ++
          (match get tagV b with
           | Some v =>
             let mv := gm tagV in
@@ -116,15 +122,15 @@ Definition mon_block (dbg reach : bool) (b : blk) : list (N * N) :=
                fails 7 6 (negb (t =? 0) || negb vempty) ++
                fails 7 7 ((stp =? 0) || (Bool.eqb (negb (t =? 0)) vempty &&
                                          ((t =? 0) || (t =? enc_terminal (Some (loss_for_mover s)))))) ++
-               fails 4 1 (negb reach || (t =? enc_terminal (is_terminal s))) ++
-               fails 4 2 (negb reach || negb (stp =? 0) ||
+               fails 4 1 (negb inv || (t =? enc_terminal (is_terminal s))) ++
+               fails 4 2 (negb inv || negb (stp =? 0) ||
                           (t =? enc_result (spec_result c (side s) (negb vempty))))
              | _ => []
              end)
           | None => []
           end) ++
          (match get tagK b with
-          | Some k => fails 13 1 (negb reach || list_eqb k (map (fun a => match dec_action a with
+          | Some k => fails 13 1 (negb inv || list_eqb k (map (fun a => match dec_action a with
                                                        | Some act => enc_preview (trapped_animal_for_action s act)
                                                        | None => 0 end) n))
           | None => []
@@ -132,9 +138,9 @@ Definition mon_block (dbg reach : bool) (b : blk) : list (N * N) :=
        | None => []
        end) ++
       (match get tagH b with
-       | Some [h] => fails 8 1 (negb reach || (h =? N.lxor (from_scratch s)
+       | Some [h] => fails 8 1 (negb inv || (h =? N.lxor (from_scratch s)
                                   (N.lxor (hash s) (transposition_hash s)))) ++
-                     fails 8 3 (negb reach || (hash s =? from_scratch s))
+                     fails 8 3 (negb inv || (hash s =? from_scratch s))
        | _ => []
        end) ++
       (match get tagF b with
@@ -145,7 +151,7 @@ Definition mon_block (dbg reach : bool) (b : blk) : list (N * N) :=
                                      | i :: w => list_eqb w (enc_pbs (piece_board_for_step s i))
                                                  && (if i =? stp then list_eqb w (enc_pbs (board s)) else true)
                                      | [] => false end) (get_all tagB b)
-                  && (negb reach || (N.of_nat (length (get_all tagB b)) =? stp + 1))) ++
+                  && (negb inv || (N.of_nat (length (get_all tagB b)) =? stp + 1))) ++
       (match get tagD b with
        | Some d =>
          fails 10 2 (negb (wfb_exec (board s)) || list_eqb d (print_state s)) ++
@@ -163,7 +169,7 @@ Definition mon_block (dbg reach : bool) (b : blk) : list (N * N) :=
               fails 15 3 (negb (wfb_exec (board s)) || list_eqb (print_state s') d) ++
               (match get tagE b with
                | Some [e; h'] =>
-                 fails 15 4 (negb reach || negb (stp =? 0) ||
+                 fails 15 4 (negb inv || negb (stp =? 0) ||
                              (negb (e =? 0) && (h' =? transposition_hash s)))
                | _ => []
                end)
@@ -240,7 +246,7 @@ Definition mon_ghost (g : ghost) (b : blk) : list (N * N) :=
 
 (* ------------------------------------------------------------------------------------------
    transition monitors: watched state, the action taken (offered there), next watched state *)
-Definition mon_trans (g : ghost) (b : blk) (code : N) (b' : blk) : list (N * N) * ghost :=
+Definition mon_trans (hist_ok : bool) (g : ghost) (b : blk) (code : N) (b' : blk) : list (N * N) * ghost :=
   match get tagS b, get tagS b' with
   | Some sl, Some sl' =>
     match dec_state sl, dec_state sl', dec_action code with
@@ -323,8 +329,8 @@ Definition mon_trans (g : ghost) (b : blk) (code : N) (b' : blk) : list (N * N) 
                            | PlayPhase pp' => list_eqb (flat_map enc_pbs (prev pp')) (flat_map enc_pbs (prev pp ++ [board s]))
                            | PlacePhase => false end) ++
         (* C05: an offered turn end changes the board and does not create a third occurrence *)
-        fails 5 1 (negb (last && offered_v) || negb (pbs_eqb (board s') (g_turn_start g))) ++
-        fails 5 2 (negb (last && offered_v) || Nat.leb (count_pos (board s') (side s') (g_hist g)) 1)
+        fails 5 1 (negb hist_ok || negb (last && offered_v) || negb (pbs_eqb (board s') (g_turn_start g))) ++
+        fails 5 2 (negb hist_ok || negb (last && offered_v) || Nat.leb (count_pos (board s') (side s') (g_hist g)) 1)
       | PlayPhase pp, Pass =>
         fails 2 4 (pbs_eqb (board s') (board s)) ++
         fails 3 2 (Bool.eqb (side s') (negb (side s)) && (move_no s' =? (if side s then move_no s else move_no s + 1))) ++
@@ -332,8 +338,8 @@ Definition mon_trans (g : ghost) (b : blk) (code : N) (b' : blk) : list (N * N) 
                    | PlayPhase pp' => (step_of pp' =? 0) && pps_eqb (pstate pp') PPNone && negb (trapped pp')
                                       && (init_hash pp' =? hash s')
                    | PlacePhase => false end) ++
-        fails 5 1 (negb offered_v || negb (pbs_eqb (board s') (g_turn_start g))) ++
-        fails 5 2 (negb offered_v || Nat.leb (count_pos (board s') (side s') (g_hist g)) 1)
+        fails 5 1 (negb hist_ok || negb offered_v || negb (pbs_eqb (board s') (g_turn_start g))) ++
+        fails 5 2 (negb hist_ok || negb offered_v || Nat.leb (count_pos (board s') (side s') (g_hist g)) 1)
       | PlacePhase, Place k =>
         (* C09: the next free home square, in order, receives (mover, k); nothing else changes *)
         let n := N.of_nat (length (bits_of (allp (board s)))) in
@@ -402,6 +408,11 @@ Definition mon_print (dbg : bool) (which v : N) (printed : text) : list (N * N) 
               end).
 
 (* square maps: index i -> [as_bit_board; from_bit_board(bit); column_char; row; new(column,row)] *)
+(* Square::from_bit_board on an arbitrary word (0, several bits): the lowest set bit, 128 for 0 *)
+Definition run_from_bit_board (x : N) : list N := [2; sq_from_bit_board x].
+Definition mon_from_bit_board (x : N) (out : list N) : list (N * N) :=
+  fails 16 9 (list_eqb out (run_from_bit_board x)).
+
 Definition mon_square (i : N) (out : list N) : list (N * N) :=
   match out with
   | [bb; back; col; row; nw] =>
